@@ -331,6 +331,8 @@ class Engine:
                 return ("int", v)
             if o.get("fn"):
                 return ("fn", o["fn"], o.get("fn_path"))
+            if o.get("static"):
+                return ("ref", ("loc", ("sym", "static:" + o["static_path"].split("::")[-1]), ()), False)
             if o.get("ty") == "()":
                 return ("unit",)
             return ("const", o.get("s"))
@@ -539,6 +541,30 @@ class Engine:
             a = self.deref_val(path, args[0])
             b = self.deref_val(path, args[1])
             return [(self.binop(m.group(3).capitalize(), a, b), None)]
+        if re.search(r"ops::Try>::branch$", nm):
+            x = args[0]
+            CF = "std::ops::ControlFlow"
+            if x[0] == "adt" and x[2] in ("Ok", "Some"):
+                return [(("adt", CF, "Continue", (x[3][0],)), None)]
+            if x[0] == "adt" and x[2] == "Err":
+                return [(("adt", CF, "Break", (("adt", x[1], "Err", (x[3][0],)),)), None)]
+            if x[0] == "adt" and x[2] == "None":
+                return [(("adt", CF, "Break", (x,)), None)]
+            is_opt = "Option<" in (t.get("callee_self") or "")
+            kv = self.known_variant(path, x)
+            good, bad = ("Some", "None") if is_opt else ("Ok", "Err")
+            outs = []
+            if kv in (None, good):
+                outs.append((("adt", CF, "Continue", (("field", ("downcast", x, good), "0"),)), None if kv else [(("isvar", x, good), True)]))
+            if kv in (None, bad):
+                res = ("adt", "std::option::Option", "None", ()) if is_opt else ("adt", "std::result::Result", "Err", (("field", ("downcast", x, "Err"), "0"),))
+                outs.append((("adt", CF, "Break", (res,)), None if kv else [(("isvar", x, bad), True)]))
+            return outs
+        if re.search(r"ops::FromResidual<.*>>::from_residual$", nm):
+            r = args[0]
+            if r[0] == "adt" and r[2] in ("Err", "None"):
+                return [(r, None)]
+            return [(("adt", "std::result::Result", "Err", (("field", ("downcast", r, "Err"), "0"),)), None)]
         if re.search(r"usize::saturating_sub$|::saturating_sub$", nm):
             return [(("app", "saturating_sub", (args[0], args[1])), None)]
         if re.search(r"Ord>::min$|::min$", nm) and len(args) == 2:
